@@ -110,6 +110,10 @@ pub(crate) struct LiveEvents<'a> {
     total_replayed_events: usize,
     /// Per-anchor replay expansion counters, indexed by anchor id (dense ids).
     per_anchor_expansions: Vec<usize>,
+    /// Anchor ids grow over the whole stream while both tables above are per document: the
+    /// lowest id touched since the last document boundary, so that the reset at a boundary
+    /// costs what the document used, not what the stream has used so far.
+    anchor_tables_dirty_from: usize,
     /// In single-document mode, stop producing events when a DocumentEnd is seen.
     stop_at_doc_end: bool,
     /// Indicates whether a DocumentEnd was seen for the last parsed document.
@@ -187,6 +191,7 @@ impl<'a> LiveEvents<'a> {
             alias_limits,
             total_replayed_events: 0,
             per_anchor_expansions: Vec::new(),
+            anchor_tables_dirty_from: usize::MAX,
             stop_at_doc_end,
             seen_doc_end: false,
 
@@ -233,6 +238,7 @@ impl<'a> LiveEvents<'a> {
             alias_limits,
             total_replayed_events: 0,
             per_anchor_expansions: Vec::new(),
+            anchor_tables_dirty_from: usize::MAX,
             stop_at_doc_end,
             seen_doc_end: false,
 
@@ -352,6 +358,8 @@ impl<'a> LiveEvents<'a> {
                     if anchor_id != 0 {
                         self.ensure_anchor_capacity(anchor_id);
                         self.anchors[anchor_id] = Some(vec![ev.clone()].into_boxed_slice());
+                        self.anchor_tables_dirty_from =
+                            self.anchor_tables_dirty_from.min(anchor_id);
                     }
                     self.last_location = location;
                     self.produced_any_in_doc = true;
@@ -444,6 +452,7 @@ impl<'a> LiveEvents<'a> {
                     }
                     self.per_anchor_expansions[anchor_id] =
                         self.per_anchor_expansions[anchor_id].saturating_add(1);
+                    self.anchor_tables_dirty_from = self.anchor_tables_dirty_from.min(anchor_id);
                     let count = self.per_anchor_expansions[anchor_id];
                     if count > self.alias_limits.max_alias_expansions_per_anchor {
                         return Err(Error::AliasExpansionLimitExceeded {
@@ -581,14 +590,17 @@ impl<'a> LiveEvents<'a> {
         // Anchors are per-document. Instead of dropping the whole vec (which frees
         // capacity and may cause re-allocation in the next document), keep the
         // allocation and just clear the entries.
-        for slot in &mut self.anchors {
+        // (Only the entries this document touched: everything below is clear already.)
+        let from = self.anchor_tables_dirty_from;
+        for slot in self.anchors.iter_mut().skip(from) {
             *slot = None;
         }
 
         // Reset per-anchor expansion counters without dropping capacity.
-        for cnt in &mut self.per_anchor_expansions {
+        for cnt in self.per_anchor_expansions.iter_mut().skip(from) {
             *cnt = 0;
         }
+        self.anchor_tables_dirty_from = usize::MAX;
 
         self.total_replayed_events = 0;
         self.seen_doc_end = false;
@@ -694,6 +706,7 @@ impl<'a> LiveEvents<'a> {
                 // Convert SmallVec into Box<[Ev]> and store by anchor_id.
                 self.ensure_anchor_capacity(done.id);
                 self.anchors[done.id] = Some(done.buf.into_vec().into_boxed_slice());
+                self.anchor_tables_dirty_from = self.anchor_tables_dirty_from.min(done.id);
             } else {
                 break;
             }
